@@ -26,6 +26,7 @@ import (
 	"perun.network/go-perun/client"
 	"perun.network/go-perun/wallet"
 	"perun.network/go-perun/wire"
+	"perun.network/go-perun/wire/perunio"
 )
 
 // ToLedgerChannelProposalMsg converts a protobuf Envelope_LedgerChannelProposalMsg to a client
@@ -206,6 +207,9 @@ func ToBaseChannelProposal(protoProp *BaseChannelProposal) (prop client.BaseChan
 	if err != nil {
 		return prop, errors.WithMessage(err, "init bals")
 	}
+	if err = validBalances(protoProp.GetFundingAgreement()); err != nil {
+		return prop, errors.WithMessage(err, "funding agreement")
+	}
 	prop.FundingAgreement = ToBalances(protoProp.GetFundingAgreement())
 	prop.App, prop.InitData, err = ToAppAndData(protoProp.GetApp(), protoProp.GetInitData())
 	copy(prop.Aux[:], protoProp.GetAux())
@@ -284,6 +288,15 @@ func ToAllocation(protoAlloc *Allocation) (alloc *channel.Allocation, err error)
 	if err != nil {
 		return nil, errors.WithMessage(err, "backends")
 	}
+	if len(alloc.Backends) != len(protoAlloc.GetAssets()) {
+		return nil, errors.Errorf("number of backends and assets differ: %d != %d", len(alloc.Backends), len(protoAlloc.GetAssets()))
+	}
+	if len(protoAlloc.GetAssets()) > channel.MaxNumAssets || len(protoAlloc.GetLocked()) > channel.MaxNumSubAllocations {
+		return nil, errors.New("too many assets or sub-allocations")
+	}
+	if err = validBalances(protoAlloc.GetBalances()); err != nil {
+		return nil, errors.WithMessage(err, "balances")
+	}
 	alloc.Assets = make([]channel.Asset, len(protoAlloc.GetAssets()))
 	for i := range protoAlloc.GetAssets() {
 		if !channel.HasBackend(alloc.Backends[i]) {
@@ -303,7 +316,7 @@ func ToAllocation(protoAlloc *Allocation) (alloc *channel.Allocation, err error)
 		}
 	}
 	alloc.Balances = ToBalances(protoAlloc.GetBalances())
-	return alloc, nil
+	return alloc, alloc.Valid()
 }
 
 // ToBalances converts a protobuf Balances to a channel.Balances.
@@ -313,6 +326,35 @@ func ToBalances(protoBalances *Balances) (balances channel.Balances) {
 		balances[i] = ToBalance(protoBalances.GetBalances()[i])
 	}
 	return balances
+}
+
+// validBalances checks that the protobuf Balances respect the limits of the
+// native encoding on the number of assets, participants and the length of a
+// balance.
+func validBalances(protoBalances *Balances) error {
+	if len(protoBalances.GetBalances()) > channel.MaxNumAssets {
+		return errors.Errorf("too many assets: %d", len(protoBalances.GetBalances()))
+	}
+	for i := range protoBalances.GetBalances() {
+		if err := validBalance(protoBalances.GetBalances()[i]); err != nil {
+			return errors.WithMessagef(err, "%d'th asset", i)
+		}
+	}
+	return nil
+}
+
+// validBalance checks that the protobuf Balance respects the limits of the
+// native encoding on the number of participants and the length of a balance.
+func validBalance(protoBalance *Balance) error {
+	if len(protoBalance.GetBalance()) > channel.MaxNumParts {
+		return errors.Errorf("too many balances: %d", len(protoBalance.GetBalance()))
+	}
+	for j := range protoBalance.GetBalance() {
+		if len(protoBalance.GetBalance()[j]) > perunio.MaxBigIntLength {
+			return errors.Errorf("%d'th balance too long: %d bytes", j, len(protoBalance.GetBalance()[j]))
+		}
+	}
+	return nil
 }
 
 // ToBalance converts a protobuf Balance to a channel.Bal.
@@ -328,6 +370,9 @@ func ToBalance(protoBalance *Balance) (balance []channel.Bal) {
 func ToSubAlloc(protoSubAlloc *SubAlloc) (subAlloc channel.SubAlloc, err error) {
 	subAlloc = channel.SubAlloc{}
 
+	if err = validBalance(protoSubAlloc.GetBals()); err != nil {
+		return subAlloc, errors.WithMessage(err, "sub alloc balances")
+	}
 	subAlloc.Bals = ToBalance(protoSubAlloc.GetBals())
 	if len(protoSubAlloc.GetId()) != len(subAlloc.ID) {
 		return subAlloc, errors.New("sub alloc id has incorrect length")
